@@ -64,20 +64,53 @@ def case_covariate(m, spec, eq, rec):
     old, new = d1.env[P], d2.env[P]
     th = [sympy.Symbol(n) for n in new_names(m, m2)]
     c = sympy.Symbol(cov)
-    if not th:
+    if m2.statements == m.statements:
         raise ValueError('no covariate effect was added (the parameter already depends on this covariate)')
+    if not th and effect not in ('cat', 'cat2'):
+        raise ValueError('no new parameter was created')
     if effect in ('cat', 'cat2'):
-        ref = centre(m, cov, 'mode')
-        cats = sorted(set(m.dataset[cov].unique()) - {ref})
-        if len(th) != len(cats):
-            rec('covariate.template', 'inconclusive', what=f'{len(th)} new thetas for {len(cats)} non-reference categories')
-            templ = None
+        # documented: the most common category has effect 1, EVERY other category present in the data has its own
+        # theta (1 + theta for cat, theta for cat2).  Decide level by level with z3.
+        levels = sorted(set(m.dataset[cov].unique()))
+        if not (2 <= len(levels) <= 12):
+            raise ValueError(f'{cov} is not a small categorical covariate')
+        used, refs, bad = set(), [], []
+        for k in levels:
+            kk = sympy.Integer(int(k)) if float(k).is_integer() else sympy.Float(k)
+            val = new.xreplace({c: kk})
+            base_k = old.xreplace({c: kk})
+            want1 = base_k if op == '*' else base_k + 1
+            v, _ = eq.check(val, want1)
+            if v == 'equal':
+                refs.append(k)
+                continue
+            hit = None
+            for t in th:
+                e = (1 + t) if effect == 'cat' else t
+                v, _ = eq.check(val, base_k * e if op == '*' else base_k + e)
+                if v == 'equal':
+                    hit = t
+                    break
+            if hit is None or hit in used:
+                bad.append(k)
+            else:
+                used.add(hit)
+        if bad or len(refs) != 1:
+            rec('covariate.template', 'violated', levels=[float(x) for x in levels], without_documented_effect=[float(x) for x in bad],
+                reference_levels=[float(x) for x in refs], new_thetas=[str(t) for t in th], got=str(new)[:300])
         else:
-            pairs = [(sympy.Integer(1), sympy.Eq(c, ref))]
-            for t, k in zip(th, cats):
-                pairs.append(((1 + t) if effect == 'cat' else t, sympy.Eq(c, k)))
-            templ = sympy.Piecewise(*pairs)
-        refval = ref
+            by_rows = m.dataset[cov].mode().iloc[0]
+            idcol = m.datainfo.id_column.name
+            by_ind = m.dataset.groupby(idcol)[cov].agg(lambda x: x.mode().iloc[0]).mode().iloc[0]
+            counts = {k: m.dataset[m.dataset[cov] == k][idcol].nunique() for k in levels}
+            by_count = max(counts, key=lambda k: counts[k])
+            if refs[0] not in (by_rows, by_ind, by_count):
+                rec('covariate.template', 'violated', what='reference category is not the most common one',
+                    reference=float(refs[0]), most_common=[float(by_rows), float(by_ind), float(by_count)])
+            else:
+                rec('covariate.template', 'discharged')
+        templ = None
+        refval = refs[0] if refs else levels[0]
     else:
         med = centre(m, cov, 'median')
         refval = med
@@ -95,8 +128,6 @@ def case_covariate(m, spec, eq, rec):
     if templ is not None:
         want = old * templ if op == '*' else old + templ
         extra = [c > 0] if effect == 'pow' else []
-        if effect in ('cat', 'cat2'):
-            extra = [sympy.Or(*[sympy.Eq(c, k) for k in [refval] + list(cats)])]
         v, info = eq.check(new, want, extra=extra)
         rec('covariate.template', V(v), **(dict(info, got=str(new)[:300], documented=str(want)[:300]) if v != 'equal' else {}))
     # neutral at the reference value of the covariate
@@ -302,7 +333,7 @@ def all_cases(thorough):
             continue
         params = [str(p) for p in pm.get_individual_parameters(m)]
         cont = [c for c in ('WGT', 'WT', 'AGE', 'CLCR') if c in m.datainfo.names and not m.datainfo[c].drop][:2]
-        cat = [c for c in ('APGR', 'SEX', 'DGRP') if c in m.datainfo.names and not m.datainfo[c].drop][:1]
+        cat = [c for c in ('FA1', 'SEX', 'DGRP', 'APGR') if c in m.datainfo.names and not m.datainfo[c].drop][:2]
         for p in params[: (3 if thorough else 2)]:
             for c in cont:
                 for eff in ('lin', 'exp', 'pow', 'piece_lin'):
